@@ -142,12 +142,39 @@ Definition c06_pure (a : list Z) : list Z :=
   | _ => []
   end.
 
+(* HalmosBool(<value>): [kind; v; s]  kind 0 python bool (v <> 0), 1 z3 term, 2 str, 3 existing HalmosBool
+   (v: 0 TRUE, 1 FALSE, 2 another symbolic one), 4 int-backed HalmosBitVec of value v, 5 term-backed one;
+   s = what z3's simplify makes of the term involved: 0 the literal true, 1 the literal false, 2 neither.
+   -> [object returned: 0 TRUE, 1 FALSE, 2 fresh, 3 the other one; con/sym of the object; con/sym of TRUE;
+       con/sym of FALSE]   con: 0 None, 1 False, 2 True;  sym: 0 None, 1 a term *)
+Definition c06_boolctor (a : list Z) : list Z :=
+  match a with
+  | [k; v; s] =>
+      let simp := fun c : bterm => if s =? 0 then BConst true else if s =? 1 then BConst false else c in
+      let arg := if k =? 0 then ABool (negb (v =? 0))
+                 else if k =? 1 then ATerm (BVar 0)
+                 else if k =? 2 then AStr 0
+                 else if k =? 3 then AObj (if v =? 0 then RTrue else if v =? 1 then RFalse else ROther)
+                 else if k =? 4 then ABitVec 256 (Cv v)
+                 else ABitVec 256 (Sv (TVar 0)) in
+      let h0 := {| hT := obj_true; hF := obj_false; hN := {| o_con := None; o_sym := None |};
+                   hO := {| o_con := None; o_sym := Some (BVar 1) |} |} in
+      let rh := hb_ctor simp hb_init_guards_singletons arg h0 in
+      let con o := match o_con o with None => 0 | Some false => 1 | Some true => 2 end in
+      let sym o := match o_sym o with None => 0 | Some _ => 1 end in
+      let rc := match fst rh with RTrue => 0 | RFalse => 1 | RNew => 2 | ROther => 3 end in
+      let h := snd rh in
+      [rc; con (hget h (fst rh)); sym (hget h (fst rh)); con (hT h); sym (hT h); con (hF h); sym (hF h)]
+  | _ => []
+  end.
+
 Definition table : list (string * (list Z -> list Z)) :=
   [ ("c06_run2"%string, c06_run2);
     ("c06_run1"%string, c06_run1);
     ("c06_run3"%string, c06_run3);
     ("c06_axioms"%string, c06_axioms);
     ("c06_method"%string, c06_method);
-    ("c06_pure"%string, c06_pure) ].
+    ("c06_pure"%string, c06_pure);
+    ("c06_boolctor"%string, c06_boolctor) ].
 
 Extraction "_build/C06/entries.ml" table.
